@@ -1,5 +1,6 @@
 """C02 -- peptide mass and m/z equal the sum of their physical parts (structural necessary conditions)."""
 import ast
+import re
 
 from ..rules_flow import forwarding, param_reaches_returns
 from .. import rules_tab as rt
@@ -7,6 +8,7 @@ from ..loader import walk_own, norm_stmt, AnalysisError
 from .common import add_fwd, add_ret, add_checks, field_coverage, accumulator_discipline, calls_in, \
     ret_deps_by_node
 from .common import check as ob
+from ..canon import Canon
 
 EXPLANATION = (
     'Decides, for all inputs at once, necessary conditions of C02 that are fixed by code shape: (a) the '
@@ -44,15 +46,32 @@ def mono_avg_pairing(ctx, rep, clause):
             pair = None
             if isinstance(node, ast.IfExp):
                 pair = (node.test, node.body, node.orelse)
-            elif isinstance(node, ast.If) and len(node.body) == 1 and len(node.orelse) == 1:
-                pair = (node.test, node.body[0], node.orelse[0])
+            elif isinstance(node, ast.If) and node.body and node.orelse:
+                pair = (node.test, ast.Module(body=node.body, type_ignores=[]),
+                        ast.Module(body=node.orelse, type_ignores=[]))
             if pair is None:
                 continue
             test, a, b = pair
             pos = _mono_test(test)
             if pos is None:
+                # a test that mentions the switch together with something else and still selects between a
+                # monoisotopic and an average table: the mode then depends on more than the caller's switch
+                ta, tb = _tables_in(a), _tables_in(b)
+                kinds_a = {_family(x)[0] for x in ta}
+                kinds_b = {_family(x)[0] for x in tb}
+                mixed = ('mono' in kinds_a and 'avg' in kinds_b and 'avg' not in kinds_a) or \
+                        ('avg' in kinds_a and 'mono' in kinds_b and 'avg' not in kinds_b)
+                if mixed and any(isinstance(x, ast.Name) and x.id == 'monoisotopic' for x in ast.walk(test)):
+                    n += 1
+                    ob(rep, 'SIB-mono-avg', f.fq, f'table selection `{Canon(f.node).text(test)[:90]}` is decided by the '
+                       f'monoisotopic switch alone', False, '',
+                       f'the choice between {sorted(ta)} and {sorted(tb)} is made by `{norm_stmt(test)[:120]}`: the '
+                       f'isotopic mode of the result depends on more than the monoisotopic argument (the average '
+                       f'branch is skipped for some inputs)', f.loc(node), clause)
                 continue
             ta, tb = _tables_in(a), _tables_in(b)
+            shared = {x for x in ta & tb if _family(x)[0] == '?'}  # particle constants used on both arms alike
+            ta, tb = ta - shared, tb - shared
             if not ta or not tb or ta == tb:
                 continue
             if not pos:
@@ -145,7 +164,14 @@ def mass_accumulation(ctx, rep, clause):
             for side in (a.value.left, a.value.right):
                 if isinstance(side, ast.Name) and _is_count_of_sequence(f, side.id):
                     count_factor = True
-    rep.floor('ACC', 'additive mod_mass contributions in mass()', n_mod, 9)
+    rep.floor('ACC', 'additive mod_mass contributions in mass()', n_mod, 3)
+    # every place a modification can sit contributes an additive term: the source of each term is read off the loops
+    # (or generator) that enclose it
+    sources = term_sources(f, 'mod_mass', [a.value for a in augs])
+    for kind in SOURCE_KINDS:
+        ob(rep, 'ACC', MASS, f'modifications from {kind} contribute an additive term', kind in sources,
+           f'{len(sources.get(kind, []))} term(s)', f'no `+= mod_mass(...)` term iterates {kind}: modifications written '
+           f'there do not change the mass on the fast path', f.loc(fast[0]), clause)
     ob(rep, 'ACC', MASS, 'residue-targeted static rule is multiplied by sequence.count(residue)', count_factor,
           'the static term carries the residue multiplicity',
           'no additive term is multiplied by the number of occurrences of the targeted residue: a static rule '
@@ -163,6 +189,48 @@ def mass_accumulation(ctx, rep, clause):
           program.func(mm).loc(), clause)
 
 
+SOURCE_KINDS = ('static rule on N-Term', 'static rule on C-Term', 'static rule on residues', 'labile_mods',
+                'unknown_mods', 'nterm_mods', 'cterm_mods', 'internal_mods', 'intervals')
+
+
+def term_sources(f, callee: str, roots=None):
+    """{source kind: [call nodes]} for every call of `callee` in f (under `roots` when given): where the
+    modification handed to the resolver comes from, read off the enclosing loops / generators"""
+    c = Canon(f.node)
+    parents = {}
+    for node in ast.walk(f.node):
+        for ch in ast.iter_child_nodes(node):
+            parents[id(ch)] = node
+    sources = {}
+    pool = roots if roots is not None else [f.node]
+    for root in pool:
+        for call in [x for x in ast.walk(root) if isinstance(x, ast.Call) and isinstance(x.func, ast.Name)
+                     and x.func.id == callee]:
+            chain = []
+            cur = call
+            while id(cur) in parents:
+                cur = parents[id(cur)]
+                if isinstance(cur, ast.GeneratorExp):
+                    chain += [norm_stmt(c.resolve(g.iter)) for g in cur.generators]
+                if isinstance(cur, ast.For):
+                    chain.append(norm_stmt(c.resolve(cur.iter)))
+            txt = ' <- '.join(chain)
+            kind = None
+            if "get('N-Term')" in txt:
+                kind = 'static rule on N-Term'
+            elif "get('C-Term')" in txt:
+                kind = 'static rule on C-Term'
+            elif 'parse_static_mods' in txt or 'static_mods' in txt:
+                kind = 'static rule on residues'
+            else:
+                for fld in ('labile_mods', 'unknown_mods', 'nterm_mods', 'cterm_mods', 'internal_mods', 'intervals'):
+                    if fld in txt:
+                        kind = fld
+                        break
+            sources.setdefault(kind or f'? {txt}', []).append(call)
+    return sources
+
+
 def _is_count_of_sequence(f, name: str) -> bool:
     for n in walk_own(f.node):
         if isinstance(n, ast.Assign) and any(isinstance(t, ast.Name) and t.id == name for t in n.targets):
@@ -177,57 +245,92 @@ def adduct_homogeneity(ctx, rep, clause):
     """every additive term of _parse_adduct_mass carries the ion count (mass of c ions X^q is c times one ion)"""
     fq = 'peptacular.mass_calc:_parse_adduct_mass'
     f = ctx.program.func(fq)
-    count_var = None
+    c = Canon(f.node)
+    unpack = None
     for n in walk_own(f.node):
         if isinstance(n, ast.Assign) and isinstance(n.value, ast.Call) and isinstance(n.value.func, ast.Name) and \
                 n.value.func.id == 'parse_ion_elements' and isinstance(n.targets[0], ast.Tuple):
-            count_var = n.targets[0].elts[0].id
-    if count_var is None:
+            unpack = c.text(n.value)
+    if unpack is None:
         raise AnalysisError('_parse_adduct_mass: cannot find the unpacking of parse_ion_elements')
-    k = 0
+    roles = {f'unpack({unpack}).0': '<count>', f'unpack({unpack}).1': '<symbol>', f'unpack({unpack}).2': '<charge>'}
+
+    def spell(node):
+        t = c.text(node)
+        for k, v in roles.items():
+            t = t.replace(k, v)
+        return re.sub(r'\$\d+|\bvar\d+\b', '<mass>', t)
+    seen = set()
     for n in walk_own(f.node):
         if isinstance(n, ast.AugAssign) and isinstance(n.target, ast.Name) and isinstance(n.op, (ast.Add, ast.Sub)):
-            k += 1
-            names = {x.id for x in ast.walk(n.value) if isinstance(x, ast.Name)}
-            ob(rep, 'AFF-degree', fq, f'term `{norm_stmt(n)}` is proportional to the ion count', count_var in names,
-                  f'carries the factor {count_var}',
-                  f'the term does not carry the ion count {count_var}: for counts other than 1 the adduct mass is not '
-                  f'count x (mass of one ion)', f.loc(n), clause)
-    rep.floor('AFF-degree', 'additive terms in _parse_adduct_mass', k, 5)
+            txt = spell(n)
+            if txt in seen:
+                continue
+            seen.add(txt)
+            ob(rep, 'AFF-degree', fq, f'term `{txt}` is proportional to the ion count', '<count>' in spell(n.value),
+                  'carries the factor <count>',
+                  f'the term does not carry the ion count (first component of parse_ion_elements): for counts other '
+                  f'than 1 the adduct mass is not count x (mass of one ion)', f.loc(n), clause)
+    rep.floor('AFF-degree', 'distinct additive terms in _parse_adduct_mass', len(seen), 3)
 
 
 def isotope_selection(ctx, rep, clause):
-    """element_setup.py: every table builder takes as "monoisotopic" the most abundant isotope of an element
-    (first element after sorting by abundance, descending), so that the mass table, the average table, the isotope
-    patterns and the Hill order speak of the same isotope"""
+    """element_setup.py: every table builder takes as representative ("monoisotopic") isotope of an element the most
+    abundant one (first element after sorting by abundance, descending), so that the mass table, the average table,
+    the isotope patterns and the Hill order speak of the same isotope.  The representative is recognised by its role:
+    the local whose .atomic_symbol / .atomic_number keys the table being built"""
     program = ctx.program
     n = 0
     for f in program.all_functions():
         if f.module.name != 'peptacular.element_setup':
             continue
+        c = Canon(f.node)
         sorted_vars = {}
         for node in walk_own(f.node):
             if isinstance(node, ast.Call) and isinstance(node.func, ast.Attribute) and node.func.attr == 'sort' and \
                     isinstance(node.func.value, ast.Name):
-                kws = {kw.arg: norm_stmt(kw.value) for kw in node.keywords}
+                kws = {kw.arg: c.text(kw.value) for kw in node.keywords}
                 key = kws.get('key', '').replace(' ', '')
-                ok = key == 'lambdax:x.isotopic_composition' and kws.get('reverse') == 'True'
+                ok = key == 'lambdaarg0:arg0.isotopic_composition' and kws.get('reverse') == 'True'
                 sorted_vars[node.func.value.id] = (ok, node)
+        reps = set()
         for node in walk_own(f.node):
-            if isinstance(node, ast.Assign) and isinstance(node.targets[0], ast.Name) and \
-                    node.targets[0].id.startswith('monoisotopic'):
+            keys = []
+            if isinstance(node, (ast.Assign, ast.AugAssign)):
+                for t in (node.targets if isinstance(node, ast.Assign) else [node.target]):
+                    if isinstance(t, ast.Subscript):
+                        keys.append(t.slice)
+            if isinstance(node, ast.Call) and isinstance(node.func, ast.Attribute) and node.func.attr == 'append':
+                keys += list(node.args)
+            for k in keys:
+                if isinstance(k, ast.Attribute) and k.attr in ('atomic_symbol', 'atomic_number') and \
+                        isinstance(k.value, ast.Name) and c.is_local(k.value.id):
+                    reps.add(k.value.id)
+        for node in walk_own(f.node):
+            if isinstance(node, ast.Assign) and isinstance(node.targets[0], ast.Name) and node.targets[0].id in reps:
                 n += 1
                 v = node.value
                 src = v.value.id if isinstance(v, ast.Subscript) and isinstance(v.value, ast.Name) and \
                     isinstance(v.slice, ast.Constant) and v.slice.value == 0 else None
                 good = src is not None and sorted_vars.get(src, (False, None))[0] and \
                     sorted_vars[src][1].lineno < node.lineno
-                ob(rep, 'SIB-isotope-order', f.fq, f'`{norm_stmt(node)}` is the most abundant isotope', good,
+                ob(rep, 'SIB-isotope-order', f.fq, f'the isotope that keys the table (`{c.text(node.value)[:60]}`) is the '
+                   f'most abundant one', good,
                    'first element after sorting by isotopic_composition, descending',
                    f'`{norm_stmt(node)}` does not take the first element of a list sorted by abundance (descending) as '
                    f'its siblings do: this table calls another isotope "monoisotopic" than the others (differs for Se, '
                    f'Li, B, Fe, ...)', f.loc(node), clause)
-    rep.floor('SIB-isotope-order', 'monoisotopic selections in element_setup.py', n, 8)
+        for r in sorted(reps):
+            if any(k == 'each' and isinstance(pl[0], ast.Name) and pl[0].id in {p_.name for p_ in f.params}
+                   for k, pl in c.bindings.get(r, [])):
+                continue  # grouping of the raw isotope records by element: every record is filed, none is selected
+            if not any(isinstance(node, ast.Assign) and isinstance(node.targets[0], ast.Name) and node.targets[0].id == r
+                       for node in walk_own(f.node)):
+                n += 1
+                ob(rep, 'SIB-isotope-order', f.fq, 'the isotope that keys the table is selected from a sorted list', False,
+                   '', f'`{r}` keys the table but is not assigned from `<list sorted by abundance>[0]` (it is a loop '
+                   f'variable or an unpacked value)', f.loc(), clause)
+    rep.floor('SIB-isotope-order', 'representative-isotope selections in element_setup.py', n, 8)
 
 
 def run(ctx, rep):
